@@ -77,6 +77,9 @@ func (fr *Frame) execInstr(instr ssa.Instruction, st *State, reach string) {
 		fr.vals[x] = fr.makeMap(x, st)
 	case *ssa.MakeChan:
 		r := c.freshRef(st, "chan")
+		// a channel made by gostatsd code is not one that package context hands out (ctxChan)
+		c.smt.declareFun("ctx_chan", []string{"Int"}, "Bool")
+		c.smt.assume(not(app("ctx_chan", r)), "make(chan): not a context's Done channel")
 		fr.vals[x] = Val{T: x.Type(), Term: r}
 	case *ssa.MakeClosure:
 		fv := &FnVal{Fn: x.Fn.(*ssa.Function)}
